@@ -59,6 +59,34 @@ var refusedImports = map[string]string{
 	"unique":        "GC-dependent behaviour",
 }
 
+// contextTypesOnly: the file uses package context only for the Context type
+// and the two root contexts, and never asks a context for its channel.
+func contextTypesOnly(f *ast.File, is *ast.ImportSpec) bool {
+	name := "context"
+	if is.Name != nil {
+		name = is.Name.Name
+	}
+	ok := true
+	ast.Inspect(f, func(n ast.Node) bool {
+		sel, isSel := n.(*ast.SelectorExpr)
+		if !isSel {
+			return true
+		}
+		if id, isID := sel.X.(*ast.Ident); isID && id.Name == name {
+			switch sel.Sel.Name {
+			case "Context", "Background", "TODO":
+			default:
+				ok = false
+			}
+		}
+		if sel.Sel.Name == "Done" || sel.Sel.Name == "Deadline" {
+			ok = false
+		}
+		return true
+	})
+	return ok
+}
+
 type instrResult struct {
 	Files        []string          // relative paths written
 	Points       int               // number of preemption points inserted
@@ -336,6 +364,9 @@ func instrumentTree(root, dst string, points bool) (*instrResult, error) {
 		for _, is := range f.Imports {
 			path, _ := strconv.Unquote(is.Path.Value)
 			if why, bad := refusedImports[path]; bad {
+				if path == "context" && contextTypesOnly(f, is) {
+					continue // context.Context in a signature, Background(), TODO(): no timers, no channels
+				}
 				in.unsupported(is.Pos(), fmt.Sprintf("import %q (%s is outside the simulator)", path, why))
 			}
 			if to, ok := swapped[path]; ok {
